@@ -44,7 +44,7 @@ LEMMA FirstHitSpec ==
   BY <1>1, <1>2
 
 LEMMA CandidatesLen ==
-    ASSUME NEW l, NEW s, NEW r, NEW fb \in BOOLEAN
+    ASSUME NEW l, NEW s, NEW r, NEW fb
     PROVE  Len(Candidates(l, s, r, fb)) \in Nat
   BY DEF Candidates
 
@@ -60,7 +60,7 @@ THEOREM OnlyAdds ==
   BY DEF MaximizeF, Override, Keeps
 
 THEOREM FillsAllThree ==
-    ASSUME NEW T, TableFull(T), NEW l, NEW s, NEW r, NEW fb \in BOOLEAN
+    ASSUME NEW T, TableFull(T), NEW l, NEW s, NEW r, NEW fb
     PROVE  LET m == MaximizeF(T, l, s, r, fb) IN
            m[1] => /\ IsFull(m[2][1], m[2][2], m[2][3])
                    /\ m[2] = <<m[2][1], m[2][2], m[2][3]>>
@@ -85,7 +85,7 @@ THEOREM FillsAllThree ==
   BY <1>3, <1>4, <1>5
 
 THEOREM MaximizeIdempotent ==
-    ASSUME NEW T, TableFull(T), NEW l, NEW s, NEW r, NEW fb \in BOOLEAN
+    ASSUME NEW T, TableFull(T), NEW l, NEW s, NEW r, NEW fb
     PROVE  LET m == MaximizeF(T, l, s, r, fb) IN
            m[1] => MaximizeF(T, m[2][1], m[2][2], m[2][3], fb) = <<FALSE, m[2]>>
 <1> DEFINE m == MaximizeF(T, l, s, r, fb)
@@ -170,7 +170,7 @@ THEOREM MinimizeIdempotent ==
   BY <1>1, <1>2, <1>4
 
 THEOREM MinimizeAfterMaximize ==
-    ASSUME NEW T, TableFull(T), NEW l, NEW s, NEW r, NEW fb \in BOOLEAN
+    ASSUME NEW T, TableFull(T), NEW l, NEW s, NEW r, NEW fb
     PROVE  LET n == MinimizeF(T, l, s, r, fb)
                m == MaximizeF(T, l, s, r, fb)
            IN (m[1] /\ n[1]) => MinimizeF(T, m[2][1], m[2][2], m[2][3], fb) = n
